@@ -192,7 +192,21 @@ func GenSchema(r *rand.Rand, f SchemaFeatures) string {
 	b := &g.b
 	qn, mn, sn := "Query", "Mutation", "Subscription"
 	if f.NonDefaultRoots {
-		qn, mn, sn = "RootQuery", "RootMutation", "RootSub"
+		// any non-empty subset of the root operation types gets a name of its own
+		switch mask := 1 + r.Intn(7); {
+		case mask == 7:
+			qn, mn, sn = "RootQuery", "RootMutation", "RootSub"
+		default:
+			if mask&1 != 0 {
+				qn = "RootQuery"
+			}
+			if mask&2 != 0 {
+				mn = "RootMutation"
+			}
+			if mask&4 != 0 {
+				sn = "RootSub"
+			}
+		}
 		b.WriteString("schema {\n  query: " + qn + "\n")
 		if f.Mutation {
 			b.WriteString("  mutation: " + mn + "\n")
